@@ -128,6 +128,7 @@ type State struct {
 	tlen       *Term
 	targ, tret Mem
 	recApps        []recApp
+	defs           []*Term // definitional facts about ghost-function applications (valid in every state)
 	caseTerm       *Term // proof-by-cases hint (see markCases)
 	caseLo, caseHi int
 	unfolded map[int]bool // applications of recursive ghost functions already unfolded on this path
@@ -148,7 +149,7 @@ func newState() *State {
 func (s *State) clone() *State {
 	n := &State{pc: append([]*Term(nil), s.pc...), objs: make(map[*Object]Value, len(s.objs)), rgn: make(map[*Region]*RegionState, len(s.rgn)),
 		inst: append([]*Term(nil), s.inst...), qh: append([]*QHyp(nil), s.qh...), alloc: s.alloc, trace: append([]CallRec(nil), s.trace...),
-		caseTerm: s.caseTerm, caseLo: s.caseLo, caseHi: s.caseHi, recApps: append([]recApp(nil), s.recApps...),
+		caseTerm: s.caseTerm, caseLo: s.caseLo, caseHi: s.caseHi, recApps: append([]recApp(nil), s.recApps...), defs: append([]*Term(nil), s.defs...),
 		tlen: s.tlen, targ: s.targ, tret: s.tret}
 	for k, v := range s.objs {
 		n.objs[k] = v
@@ -325,6 +326,18 @@ func (u *Unit) havocRegion(st *State, r *Region) {
 	}
 	u.nextID++
 	st.rgn[r] = &RegionState{ver: u.nextID, gen: u.nextID}
+}
+
+// havocRange: elements [off, off+n) of a scalar region become arbitrary, the others keep their values.
+func (u *Unit) havocRange(st *State, r *Region, off, n *Term) {
+	s := scalarSort(r.Elem)
+	if s == nil || r.concrete {
+		u.havocRegion(st, r)
+		return
+	}
+	u.nextID++
+	fresh := u.baseMem(st, r, u.nextID, "", s)
+	u.setComp(st, r, "", copyMem{u.compMem(st, r, "", s), off, n, fresh, off})
 }
 
 func (u *Unit) derived(r *Region, idx *Term, path string, elem types.Type) *Region {
